@@ -14,4 +14,4 @@ PFX=$(grep -m1 '^//@harness-prefix' unit.rs | awk '{print $2}'); PFX=${PFX:-u::v
 ulimit -v 20000000
 ( time RUSTFLAGS="--edition 2024" timeout $TO kani unit.rs --harness ${PFX}$H --exact "$@" ) > /var/tmp/try/$H.log 2>&1
 echo "exit=$?" >> /var/tmp/try/$H.log
-grep -E "^VERIFICATION|^Verification Time|^exit=|^real|Status: FAILURE|^error" /var/tmp/try/$H.log | head -20
+grep -a -E "^VERIFICATION|^Verification Time|^exit=|^real|Status: FAILURE|^error" /var/tmp/try/$H.log | head -20
